@@ -35,6 +35,16 @@ def _rt_struct(o):
 
 def _rt_stats(o):
   # statistics bodies: unpack(raw, offset, avail)
+  # the entry is followed by more bytes of the stats body (avail covers them): decoding must stop at the entry's own
+  # length (entries of a multi-entry reply are decoded one after another from the same buffer)
+  p = o.pack()
+  o2 = type(o)()
+  r = o2.unpack(p + b"\0\0\0\0\0\0\0\0", 0, len(p) + 8)
+  return (p, len(o), r, o2 == o, o2.pack())
+
+
+def _rt_stats_rest(o):
+  # vendor statistics: the body IS the rest of the reply (everything up to avail)
   p = o.pack()
   o2 = type(o)()
   r = o2.unpack(p, 0, len(p))
@@ -159,5 +169,6 @@ make_unit("ofp_action_generic", "action")
 for _n in ["ofp_phy_port", "ofp_queue_prop_min_rate"]:
   make_unit(_n, "struct", QUEUE_PROP_TYPE.get(_n))
 for _n in ["ofp_aggregate_stats", "ofp_port_stats_request", "ofp_port_stats", "ofp_queue_stats_request", "ofp_queue_stats",
-           "ofp_table_stats", "ofp_vendor_stats_generic"]:
+           "ofp_table_stats"]:
   make_unit(_n, "stats")
+make_unit("ofp_vendor_stats_generic", "stats", rt=_rt_stats_rest)
